@@ -112,6 +112,12 @@ struct Block {
     /// the reverse diff of this height is certainly retained (committed under a
     /// rewind policy and not in the pruned range of any later commit)
     history_retained: bool,
+    /// a reverse diff for this height is present: the block was committed under a
+    /// rewind policy and no later RewindRange commit pruned exactly this height
+    /// (a RewindRange{n} commit at height x prunes height x-n only). Used to
+    /// label wrong answers: a height above the requested one without a diff is
+    /// a gap in the history.
+    diff_present: bool,
 }
 
 /// a view kept over later operations
@@ -470,6 +476,9 @@ fn run_history(args: &Args, report: &Report, shard: usize, shard_seed: u64, iter
                     if b.height <= pruned_up_to {
                         b.history_retained = false;
                     }
+                    if b.height == pruned_up_to {
+                        b.diff_present = false;
+                    }
                 }
                 for v in held.iter_mut() {
                     if v.needs_history && pruned_up_to > v.height {
@@ -481,6 +490,7 @@ fn run_history(args: &Args, report: &Report, shard: usize, shard_seed: u64, iter
                 height: h,
                 state,
                 history_retained: retained,
+                diff_present: retained,
             });
             all_heights.insert(h);
             hist.events.push(format!("C{h}"));
@@ -537,6 +547,7 @@ fn run_history(args: &Args, report: &Report, shard: usize, shard_seed: u64, iter
                     height: top,
                     state: chain.last().unwrap().state.clone(),
                     history_retained: false,
+                    diff_present: false,
                 };
                 chain.push(fake);
                 check_latest(&mut hist, &db, &chain, &base, &what);
@@ -591,7 +602,12 @@ fn run_history(args: &Args, report: &Report, shard: usize, shard_seed: u64, iter
         let latest = chain.last().map(|b| b.height);
         for (i, b) in chain.iter().enumerate() {
             let h = b.height;
-            let gap = chain[i + 1..].iter().any(|x| !x.history_retained);
+            // a height above `h` has no reverse diff: committed under NoRewind, or
+            // pruned while lower heights kept their diffs (policy change)
+            let gap = chain[i + 1..].iter().any(|x| !x.diff_present);
+            if gap != chain[i + 1..].iter().any(|x| !x.history_retained) {
+                hist.local.count("info.gap_labels_disagree");
+            }
             let differs = chain
                 .last()
                 .map(|l| DATA_COLS.iter().any(|c| l.state.col(c.id()) != b.state.col(c.id())))
@@ -643,11 +659,11 @@ fn run_history(args: &Args, report: &Report, shard: usize, shard_seed: u64, iter
                             hist.violation(
                                 signature,
                                 format!(
-                                    "view_at({h}) (latest {latest:?}, policy now {}) returned {} wrong value(s): {}; heights above without retained history: {:?}",
+                                    "view_at({h}) (latest {latest:?}, policy now {}) returned {} wrong value(s): {}; heights above without a reverse diff: {:?}",
                                     policy_name(policy),
                                     m.len(),
                                     m.iter().take(5).cloned().collect::<Vec<_>>().join("; "),
-                                    chain[i + 1..].iter().filter(|x| !x.history_retained).map(|x| x.height).collect::<Vec<_>>()
+                                    chain[i + 1..].iter().filter(|x| !x.diff_present).map(|x| x.height).collect::<Vec<_>>()
                                 ),
                             );
                         }
